@@ -2,7 +2,7 @@ package stackage
 
 // C16 — Marshal accepts or rejects any input without panicking.
 
-const vhMarshalKinds = 19
+const vhMarshalKinds = 25
 
 // vhMarshalEntry returns entry kind sel; label reports the stack kind a
 // string entry names when used as a label ("" if none), isStr whether it is a
@@ -46,8 +46,92 @@ func vhMarshalEntry(sel int) (v any, label string, isStr bool) {
 		return Cond("rk", Eq, "rv"), "", false
 	case 17:
 		return "", "", true
+	case 18: // typed nil pointers whose types carry String methods
+		var p *Stack
+		return p, "", false
+	case 19:
+		var p *Condition
+		return p, "", false
+	case 20:
+		var p *ComparisonOperator
+		return p, "", false
+	case 21:
+		var p *vhUserOp
+		return p, "", false
+	case 22: // nested input that decodes to a Stack / a Condition
+		return []any{"and", "n1", "n2"}, "", false
+	case 23:
+		return []any{"CONDITION", "nk", Ne, "nv"}, "", false
 	}
 	return 2.5, "", false
+}
+
+// vhEntryMatch reports whether the stored element el can stem from input
+// entry e: the value itself, or what a nested []any decodes to.
+func vhEntryMatch(el, e any) bool {
+	if sl, ok := e.([]any); ok {
+		if raw, ok := el.([]any); ok {
+			return len(raw) == len(sl) && len(sl) > 0 && &raw[0] == &sl[0]
+		}
+		if len(sl) > 0 {
+			if lab, _ := sl[0].(string); vhEqFold(lab, "CONDITION") {
+				_, isC := vhCondOf(el)
+				return isC
+			}
+		}
+		_, isS := vhStackOf(el)
+		return isS
+	}
+	switch x := e.(type) {
+	case nil:
+		return el == nil
+	case string:
+		y, ok := el.(string)
+		return ok && x == y
+	case int:
+		y, ok := el.(int)
+		return ok && x == y
+	case float64:
+		y, ok := el.(float64)
+		return ok && x == y
+	case ComparisonOperator:
+		y, ok := el.(ComparisonOperator)
+		return ok && x == y
+	case vhUserOp:
+		y, ok := el.(vhUserOp)
+		return ok && x == y
+	case *int:
+		y, ok := el.(*int)
+		return ok && x == y
+	case *Stack:
+		y, ok := el.(*Stack)
+		return ok && x == y
+	case *Condition:
+		y, ok := el.(*Condition)
+		return ok && x == y
+	case *ComparisonOperator:
+		y, ok := el.(*ComparisonOperator)
+		return ok && x == y
+	case *vhUserOp:
+		y, ok := el.(*vhUserOp)
+		return ok && x == y
+	}
+	return vhSameElem(el, e)
+}
+
+// vhAssertFromInput: every stored element stems from an input entry, in the
+// input's order (nothing fabricated, duplicated or moved).
+func vhAssertFromInput(s Stack, in []any, id string) {
+	st := *s.stack
+	pos := 0
+	for i := 1; i < len(st); i++ {
+		found := false
+		for pos < len(in) && !found {
+			found = vhEntryMatch(st[i], in[pos])
+			pos++
+		}
+		verifAssert(found, id)
+	}
 }
 
 // vhAfterMarshal checks the "error or usable stack" disjunction.
@@ -102,10 +186,16 @@ func VH_C16_Flat(p []int) {
 		case "AND", "OR", "NOT", "LIST", "BASIC":
 			verifAssert(s.Kind() == label, "label-honoured-case-insensitively")
 			verifAssert(s.Len() <= n-1, "label-not-an-element")
+			vhAssertFromInput(s, in[1:], "elements-stem-from-entries-in-order")
 		case "":
 			if firstIsStr && n > 0 {
 				verifAssert(s.Kind() == "BASIC", "unknown-label-yields-basic")
 				verifAssert(s.Len() == n, "unknown-label-keeps-all-entries")
+				if s.Len() == n {
+					for k := range in {
+						verifAssert(vhEntryMatch((*s.stack)[k+1], in[k]), "unknown-label-entry-in-place")
+					}
+				}
 			}
 		}
 	}
